@@ -103,6 +103,11 @@ class ServerSock:
         f = self.net.faults.get((c.cid, op, n))
         if f is None:
             f = self.net.faults.get((c.cid, op, "*"))
+        if f is None:
+            # a connection that is dead from its n-th call on: {(cid, op): (n, errno)}
+            ff = getattr(self.net, "faults_from", {}).get((c.cid, op))
+            if ff is not None and n >= ff[0]:
+                f = ff[1]
         if f is not None:
             w.note_fault(c, op, n, f)
             if isinstance(f, int):
